@@ -118,16 +118,24 @@ def handleSpec (cmd : String) (p : Position) (rest : List String) : String :=
   | "sleaves", [d] => toString (Spec.leaves a (nat! d))
   | "sfen", [st] =>
       String.ofList (Spec.printFen a (match st with | "s" => .shredder | "k" => .kqkq | _ => .xfen))
-  | "qmin", _ =>
-      -- plain minimax over the capture tree, successors and captures by the specification
-      let rec qm (fuel : Nat) (q : Position) : Int :=
+  | "sqmin", [budget] =>
+      -- plain minimax over the capture tree, successors and captures by the specification;
+      -- `BIG` when the unpruned tree exceeds the node budget
+      let rec qm (fuel : Nat) (q : Position) (left : Nat) : Option (Int × Nat) :=
         match fuel with
-        | 0 => eval q
+        | 0 => some (eval q, left)
         | fuel + 1 =>
+          if left == 0 then none else
           let aq := GenPos.freeze (abs q)
           let caps := (Spec.legalMoves aq).filter (Spec.isCaptureMove aq)
-          caps.foldl (fun best m => max best (-(qm fuel (rel (Spec.apply aq m) q.frc)))) (eval q)
-      toString (qm 40 p)
+          caps.foldl (fun acc m =>
+            match acc with
+            | none => none
+            | some (best, left) =>
+              match qm fuel (rel (Spec.apply aq m) q.frc) left with
+              | none => none
+              | some (v, left) => some (max best (-v), left)) (some (eval q, left - 1))
+      (match qm 40 p (nat! budget) with | some (v, _) => toString v | none => "BIG")
   | "sind", _ => s!"{showB (ValidPos p)} {showB (Spec.EpConsistent a)} {showB (Spec.LegalMaterial a)}"
   | _, _ => "bad-op"
 
